@@ -46,6 +46,7 @@ def monitor(case, il, sl):
     for k, hexs, dec in frames:
         by_op.setdefault(k, []).append((hexs, dec))
     exc_code = None
+    drops_seen = any(x.startswith(("drop-cons", "drop-handle")) for x in case.ops)
     for k, (o, g) in enumerate(tr.al):
         for l in g:
             if l.startswith("alloc ok "):
@@ -67,7 +68,13 @@ def monitor(case, il, sl):
             elif want in ("ignored", "closed", "unknown"):
                 pass
             elif want == "ok":
-                if got != "ok" and not (sends and got in ("FrameUnexpected", "EventLoopClientDropped")) :
+                # a send to a bounded reply queue may find it full (FrameUnexpected) or its handle gone;
+                # a consumer's queue is unbounded: only a dropped receiver can make the send fail
+                if sends == "consumer":
+                    tolerated = ("EventLoopClientDropped",) if drops_seen else ()
+                else:
+                    tolerated = ("FrameUnexpected", "EventLoopClientDropped") if sends else ()
+                if got != "ok" and got not in tolerated:
                     return ("legal frame %s gave %r" % (" ".join(dec[:5]), got), "c07-table")
             else:
                 if got == "ok" and clean:
